@@ -440,6 +440,24 @@ theorem removeFire_cases (s : Reg) (n : Name) :
           exact ⟨hu, by simp [this, e]⟩
     · simp [hk]
 
+def assignDemandR (s : Reg) (n p : Name) (i : NodeInfo) : Reg :=
+  { (addUsage { s with patterns := s.patterns ++ [p] } .pattern p (n, .junction)) with
+    nodes := AL.set s.nodes n { i with demands := [(some p, false)] } }
+
+theorem assignDemand_cases (s : Reg) (n p : Name) :
+    assignDemand repaired s n p = (s, .error) ∨
+    (∃ i, AL.get? s.nodes n = some i ∧ i.kind = .junction ∧ p ∉ s.patterns ∧
+      assignDemand repaired s n p = (assignDemandR s n p i, .ok)) := by
+  unfold assignDemand assignDemandR
+  cases h : AL.get? s.nodes n with
+  | none => exact Or.inl rfl
+  | some i =>
+    by_cases hk : i.kind = .junction
+    · by_cases hp : p ∈ s.patterns
+      · simp [hk, hp]
+      · exact Or.inr ⟨i, rfl, hk, hp, by simp [hk, hp]⟩
+    · simp [hk]
+
 def setSourceNodeR (s : Reg) (n node : Name) (si : SourceInfo) : Reg :=
   { (addUsage (removeUsageT s .node si.node (n, .source)) .node node (n, .source)) with
     sources := AL.set s.sources n { si with node := node } }
